@@ -28,7 +28,7 @@ profile('core-stall', P.gen_core, cancels=0.0, stall_bias=0.9, stall_faults=0.8,
 profile('core-await', P.gen_core, cancels=0.0, awaitable=0.7, kinds=[(4, 'stream'), (4, 'channel'), (1, 'rr')])
 profile('core-credit', P.gen_core, cancels=0.0, kinds=[(4, 'stream'), (5, 'channel'), (1, 'rr')],
         sources=[(4, 'gen'), (4, 'agen'), (1, 'manual')], max_count=50, errors=False)
-profile('core-cancel', P.gen_core, cancels=0.5, cancel_sent=1.0, kinds=[(6, 'rr'), (6, 'stream'), (6, 'channel'), (2, 'fnf'), (1, 'push')])
+profile('core-cancel', P.gen_core, cancels=0.5, cancel_sent=1.0, on_cancel_raises=0.15, kinds=[(6, 'rr'), (6, 'stream'), (6, 'channel'), (2, 'fnf'), (1, 'push')])
 profile('core-ends', P.gen_core, cancels=0.25, p_resp_pub=0.7, p_req_pub=0.6, p_resp_sub=0.8, lib_streams=0.15,
         kinds=[(2, 'rr'), (3, 'stream'), (5, 'channel'), (1, 'fnf')])
 
@@ -70,6 +70,7 @@ profile('core-lease', P.gen_core_lease)
 profile('core-eager', P.gen_core_eager)
 
 profile('id-reuse', PH.gen_id_reuse)
+profile('id-reuse-after-end', PH.gen_id_reuse_after_end)
 
 profile('peer-script', PP.gen_peer_script)
 
@@ -128,8 +129,9 @@ CHECKS = {
     'C19': {'profiles': [('routing', 10000, 300000)], 'oracles': [XRT.oracle_c19], 'level': 'exploration'},
     'C20': {'profiles': [('rx', 8000, 250000)], 'oracles': [XRX.oracle_c20], 'level': 'exploration'},
     'C10': {'profiles': [('core-ends', 3500, 140000), ('core', 1500, 60000), ('core-frag', 1000, 40000),
-                         ('core-ids-ends', 1000, 40000)],
-            'oracles': [O.oracle_c10], 'level': 'exploration'},
+                         ('core-ids-ends', 1000, 40000), ('id-reuse-after-end', 3000, 100000)],
+            'oracles': {'core-ends': [O.oracle_c10], 'core': [O.oracle_c10], 'core-frag': [O.oracle_c10], 'core-ids-ends': [O.oracle_c10],
+                        'id-reuse-after-end': [PH.oracle_c10_reuse]}, 'level': 'exploration'},
 }
 
 
